@@ -8,7 +8,8 @@ from . import c09_cases, common, e2
 
 PID = "C09"
 PROPS_FILE = "props/C09.v"
-MODEL_TARGETS = ["model/GraphDump.vo", "model/GraphInv.vo", "model/GraphTree.vo", "model/GraphTreeInv.vo", "model/GraphCheck.vo"]
+MODEL_TARGETS = ["model/GraphDump.vo", "model/GraphInv.vo", "model/GraphTree.vo", "model/GraphTreeInv.vo", "model/GraphCheck.vo",
+                 "model/GraphExt.vo"]
 RULE = ("E2: a seeded online generator drives the real Workflow + Scheduler (in-memory SQLite, dispatch through the real "
         "pop_next_job) through the transaction alphabet of model/GraphTree.v (the 14 kinds of model/Graph.v with the tree-aware declaration functions + register_static_tree) following the executor / director / startup / "
         "finalize protocols (rejected requests, crashes, detached-but-running steps, identical re-declaration = full "
@@ -21,7 +22,12 @@ RULE = ("E2: a seeded online generator drives the real Workflow + Scheduler (in-
         "evaluated on every prefix; the tree-ownership oracle (non-nested attached trees, attached files under an attached tree are its STATIC files) runs on every dump of the real database; fixed witness traces of the findings D16, D31, D33 and of the hold protocol, and the D17 "
         "scenario through the real Executor.run_hash_job, are replayed on every run; the real Trellis/Workflow consistency "
         "check runs in strict mode at the end of every trace; an independent DFS over all dependency rows of every dump checks acyclicity. A transaction is non-trivial when it changed the dump or was "
-        "rejected; distinct by (operation, resulting dump)")
+        "rejected; distinct by (operation, resulting dump). The startup family runs the alphabet op_x of model/GraphExt.v: "
+        "the real startup.reset_interrupted_steps (two transactions, dumped separately), the real finalize.revert_optional_steps, "
+        "Workflow.initialize_boot on an existing database, process_nglob_changes with real nglob registrations, the "
+        "'inputs overtaken' branch of try_skip_job, start_build_phase, and frame transactions (register_nglob, "
+        "reconcile_targets, set_duration, env_var.value) whose dump must not change; the argument shapes of every "
+        "transaction kind are counted in the evidence (shape:*)")
 TRUSTED_BASE = [
     "Coq 8.16.1 kernel; vm_compute in Examples/witnesses and in the correspondence evaluation; no native_compute",
     "Print Assumptions: Closed under the global context for every C09 theorem",
@@ -32,6 +38,8 @@ TRUSTED_BASE = [
     "(read from executor.py), not executed through Executor itself (except the D17 hash-job scenario)",
     "the build-loop protocol (protocol_ok) under which I4/I5c are proved is validated on every executed trace, not proved",
     "no extraction: the model is evaluated inside Coq",
+    "translator/gen_writers.py: the SQL statement scanner (regular expressions over every string expression of the "
+    "package) and the name-based call graph that decide which transactions reach a writer of a dump column",
 ]
 ASSUMPTIONS = [
     "SQLite executes triggers, CHECK constraints and transactions as documented",
@@ -41,8 +49,12 @@ ASSUMPTIONS = [
 
 
 def generate(ctx):
-    from translator import gen_graph
+    from translator import gen_graph, gen_writers
     ctx.facts = gen_graph.generate(ctx)
+    # writer inventory: every write statement / transaction of stepup/core is classified against the
+    # columns the dump reads; a new writer of the stored workflow fails closed here
+    e2._check_dump_columns()
+    ctx.writers = gen_writers.generate(ctx)
 
 
 def _traces(ctx, n, length, tag="", startup=False):
@@ -53,7 +65,7 @@ def _traces(ctx, n, length, tag="", startup=False):
     return out
 
 
-HEADER_C = e2.HEADER.replace("model.GraphTree.", "model.GraphTree model.GraphInv model.GraphTreeInv model.GraphCheck.")
+HEADER_C = e2.HEADER.replace("model.GraphTree.", "model.GraphTree model.GraphInv model.GraphTreeInv model.GraphCheck model.GraphExt.")
 PER_STARTUP = ("e2c", "inv_b", "repaired")
 
 
@@ -78,9 +90,9 @@ def startup_family(ctx, tag=""):
                 ctx.count("startup:check_consistency_repairs")
             prev = d
         builders += [
-            lambda it, tr=tr: f"check_trace_c 3 {cc.cq_items_cc(tr, it)}",
-            lambda it, tr=tr: f"all_prefixes_ok_c inv_b (init_st 3) {cc.cq_ops_cc(tr, it)}",
-            lambda it, tr=tr: f"repaired_after_check (init_st 3) {cc.cq_ops_cc(tr, it)}",
+            lambda it, tr=tr: f"check_trace_x 3 {cc.cq_items_x(tr, it)}",
+            lambda it, tr=tr: f"all_prefixes_ok_x inv_b (init_st 3) {cc.cq_ops_x(tr, it)}",
+            lambda it, tr=tr: f"repaired_after_check_x (init_st 3) {cc.cq_ops_x(tr, it)}",
         ]
     npt = len(PER_STARTUP)
     bad = cc.run_cases(ctx, "e2c", HEADER_C, builders, chunk=4 * npt, jobs=4)
@@ -90,7 +102,7 @@ def startup_family(ctx, tag=""):
         k = None
         if kind == "e2c":
             it2 = cc.Interner()
-            term = f"first_bad_c 0 (init_st 3) {cc.cq_items_cc(tr, it2)}"
+            term = f"first_bad_x 0 (init_st 3) {cc.cq_items_x(tr, it2)}"
             v = common.eval_terms(ctx, "e2cdiag", HEADER_C + "\n".join(it2.defs) + "\n", [term])
             import re
             m = re.search(r"Some (\d+)", v[0] or "")
